@@ -24,12 +24,44 @@ Record cache := mkCache {
 
 Record bind_req := mkBind { b_job : positive; b_task : positive; b_node : positive; b_decision_fails : bool }.
 
-Inductive bind_res := BOk | BNoJob | BNoTask | BNoNode | BDecision | BRefused (e : add_err).
+Inductive bind_res := BOk | BNoJob | BNoTask | BNoNode | BNotReady | BDecision | BRefused (e : add_err).
 
 Section WithEps.
 Variable eps : Z.
 
 Definition add_bind_task (c : cache) (r : bind_req) : cache * bind_res :=
+  match c_jobs c !! b_job r with
+  | None => (c, BNoJob)
+  | Some j =>
+    if negb (bool_decide (b_task r ∈ j_tasks j)) then (c, BNoTask) else
+    match c_heap c !! b_task r with
+    | None => (c, BNoTask)          (* unreachable when the jobs hold what the heap files *)
+    | Some t =>
+      match c_nodes c !! b_node r with
+      | None => (c, BNoNode)
+      | Some n =>
+        (* fix 8dab8c3: a NodeInfo without Node object (placeholder) is refused before anything is touched *)
+        if negb (n_has_node n) then (c, BNotReady) else
+        let orig := t_status t in
+        let '(j1, t1) := job_update (c_heap c) j t Binding in
+        let h1 := <[b_task r := t1]> (c_heap c) in
+        let revert (e : bind_res) :=
+          let '(j2, t3) := job_update h1 j1 t1 orig in
+          (mkCache (<[b_task r := t3]> h1) (<[b_job r := j2]> (c_jobs c)) (c_nodes c), e) in
+        if b_decision_fails r then revert BDecision else
+        match node_add eps n t1 with
+        | inl (n', t2) =>
+          (mkCache (<[b_task r := t2]> h1) (<[b_job r := j1]> (c_jobs c)) (<[b_node r := n']> (c_nodes c)), BOk)
+        | inr e => revert (BRefused e)
+        end
+      end
+    end
+  end.
+
+(* AddBindTask before fix 8dab8c3: any entry of sc.Nodes was accepted as a target; a placeholder
+   (no Node object) then took the task without ledger and without re-check (see
+   bind_to_placeholder_unchecked_refuted) *)
+Definition add_bind_task_prefix (c : cache) (r : bind_req) : cache * bind_res :=
   match c_jobs c !! b_job r with
   | None => (c, BNoJob)
   | Some j =>
@@ -62,6 +94,7 @@ Definition agent_add_bind_task (ns : gmap positive node) (t : task) (nid : posit
   match ns !! nid with
   | None => (ns, BNoNode)
   | Some n =>
+    if negb (n_has_node n) then (ns, BNotReady) else   (* fix 8dab8c3 *)
     match node_add eps n (set_status t Binding) with
     | inl (n', _) => (<[nid := n']> ns, BOk)
     | inr e => (ns, BRefused e)
@@ -83,7 +116,8 @@ Inductive cache_ev :=
 | EvDelete (tid : positive)                 (* pod deleted *)
 | EvPodAdd (t : task)                       (* a pod arrives (possibly before its node) *)
 | EvUpdateUnbound (tid : positive)          (* pod update / resync whose object still has no nodeName *)
-| EvBoundArrives (tid : positive).          (* the update that shows the pod bound where the cache bound it *)
+| EvBoundArrives (tid : positive)           (* the update that shows the pod bound where the cache bound it *)
+| EvRemoveNode (nid : positive).            (* node deleted *)
 
 Definition node_set_acc (n : node) (t : task) : node :=
   let r := t_req t in
@@ -190,6 +224,16 @@ Definition cache_event (c : cache) (e : cache_ev) : cache :=
       | _, _ => c      (* the harness delivers this event only for a bind the cache accepted *)
       end
     end
+  | EvRemoveNode nid =>
+    (* RemoveNode 597-640 (after fix e29cb66): the pods of a removed node stay on a not-ready
+       placeholder NodeInfo (no Node object, no ledger) until their own delete events arrive *)
+    match c_nodes c !! nid with
+    | None => c
+    | Some n =>
+      mkCache (c_heap c) (c_jobs c)
+              (if bool_decide (n_tasks n = ∅) then delete nid (c_nodes c)
+               else <[nid := mkNode nid false empty_res empty_res empty_res empty_res empty_res (n_tasks n)]> (c_nodes c))
+    end
   end.
 
 (* the node (smallest id) on which a task is held as Binding *)
@@ -223,6 +267,8 @@ Definition agent_event (tasks : positive -> option task) (ns : gmap positive nod
     | Some st, Some i => add_to_node ns (set_node (set_status st Bound) (Some i))
     | _, _ => ns
     end
+  (* agentscheduler RemoveNode: the entry is dropped together with what it held *)
+  | EvRemoveNode nid => delete nid ns
   end.
 
 Inductive cache_op := OpBind (r : bind_req) | OpEv (e : cache_ev).
@@ -231,6 +277,16 @@ Definition cache_step (c : cache) (o : cache_op) : cache * bind_res :=
   match o with OpBind r => add_bind_task c r | OpEv e => (cache_event c e, BOk) end.
 
 Definition ops_state (c : cache) (l : list cache_op) : cache := fold_left (fun c o => fst (cache_step c o)) l c.
+
+(* the same history with the pre-fix AddBindTask *)
+Definition cache_step_prefix (c : cache) (o : cache_op) : cache * bind_res :=
+  match o with OpBind r => add_bind_task_prefix c r | OpEv e => (cache_event c e, BOk) end.
+Definition ops_state_prefix (c : cache) (l : list cache_op) : cache := fold_left (fun c o => fst (cache_step_prefix c o)) l c.
+Fixpoint ops_results_prefix (c : cache) (l : list cache_op) : list (option bind_res) :=
+  match l with
+  | [] => []
+  | o :: l' => (match o with OpBind _ => Some (snd (cache_step_prefix c o)) | OpEv _ => None end) :: ops_results_prefix (fst (cache_step_prefix c o)) l'
+  end.
 
 Fixpoint ops_results (c : cache) (l : list cache_op) : list (option bind_res) :=
   match l with
